@@ -32,7 +32,10 @@ RuleTransitions(z, L) ==
            ys == Years5(L)
            all == {<<RS(r, y), r.std, r.dst>> : y \in ys} \cup {<<RE(r, y), r.dst, r.std>> : y \in ys}
        IN IF NTr(z) = 0 THEN all ELSE {g \in all : CLt(ToUnix(z.lp, LastT(z)), g[1])}
-RuleGaps(z, L) == {g \in RuleTransitions(z, L) : g[2].off < g[3].off /\ CLe(CAddSec(g[1], g[2].off), L) /\ CLt(L, CAddSec(g[1], g[3].off))}
+\* The clock JUMPS at a rule instant only if no other rule instant coincides with it: where a period is empty - all-year DST,
+\* E(y) = S(y+1); a year in which S(y) = E(y) - the two changes cancel and the clock shows the same type before and after.
+Jumps(all) == {g \in all : ~\E h \in all : h # g /\ h[1] = g[1]}
+RuleGaps(z, L) == {g \in Jumps(RuleTransitions(z, L)) : g[2].off < g[3].off /\ CLe(CAddSec(g[1], g[2].off), L) /\ CLt(L, CAddSec(g[1], g[3].off))}
 Gaps(z, L) == TableGaps(z, L) \cup RuleGaps(z, L)
 
 \* ---- domain in which the statements fix the outcome completely ----
